@@ -137,11 +137,17 @@ fn all_corruptions(base: &Base, rep: &mut Report) {
 
 /// Shape-valid strings whose declared length (resp. checksum) is wrong must be rejected with the matching kind.
 fn wrong_length_or_checksum(rng: &mut Rng, rep: &mut Report) {
-    let len = match rng.below(4) {
+    let mut len = match rng.below(4) {
         0 => rng.usize(4),
         1 => 16,
         _ => rng.usize(256),
     };
+    // one case in eight carries MORE than 255 data pairs — a length no valid frame has, so the one-byte length field
+    // can only be "right" modulo 256
+    let overlong = rng.chance(1, 8);
+    if overlong {
+        len += 256 * (1 + rng.usize(2));
+    }
     let data = rng.bytes(len);
     let addr = rng.edgy_u16();
     let ty = rng.edgy_u8();
@@ -156,7 +162,10 @@ fn wrong_length_or_checksum(rng: &mut Rng, rep: &mut Report) {
     let _ = nibs;
     if rng.bool() {
         // wrong declared length, checksum made *consistent* with the wrong length so only the length is wrong
-        let mut declared = rng.u8();
+        let mut declared = if overlong && rng.chance(3, 4) { (len % 256) as u8 } else { rng.u8() };
+        if overlong {
+            rep.count("overlong_wrong_length_strings");
+        }
         if declared as usize == len {
             declared = declared.wrapping_add(1 + rng.below(255) as u8);
             if declared as usize == len {
@@ -195,6 +204,9 @@ fn wrong_length_or_checksum(rng: &mut Rng, rep: &mut Report) {
             );
         }
     } else {
+        if overlong {
+            return; // a wrong checksum on an over-long frame is the length case again
+        }
         let mut fields = vec![len as u8, (addr >> 8) as u8, addr as u8, ty];
         fields.extend_from_slice(&data);
         let good = refs::lrc(&fields);
@@ -324,6 +336,7 @@ pub fn run(ctx: &Ctx) -> Outcome {
     let ok_orig: u64 = report.counters.iter().filter(|(k, _)| k.starts_with("ok_original/")).map(|(_, v)| *v).sum();
     floors.push(floor("changed strings that still decode to the original (case change / terminator loss) observed", ok_orig > 0, ok_orig));
     floors.push(floor("wrong-length strings generated", report.get("wrong_length_strings") > 1000, report.get("wrong_length_strings")));
+    floors.push(floor("over-long strings whose length field is right modulo 256", report.get("overlong_wrong_length_strings") > 100, report.get("overlong_wrong_length_strings")));
     floors.push(floor("wrong-checksum strings with every delta 1..=255", report.set_len("checksum_deltas") == 255, report.set_len("checksum_deltas")));
     floors.push(floor("nested base frames (a suffix is itself a valid frame)", report.get("nested_base_frames") >= 20, report.get("nested_base_frames")));
     floors.push(floor("base frames of >= 12 distinct lengths incl. 255", report.set_len("base_lengths") >= 12, report.set_len("base_lengths")));
